@@ -174,7 +174,8 @@ def run_shard(shard, tier, seed):
         seen = set()
 
         def pf(t, form):
-            return ["dirtyhole", "grown"] if form == "py" else ["dirtyhole"]
+            # ghosthole: the place has been used before by objects of the same type and size laid out otherwise
+            return (["dirtyhole", "grown"] if form == "py" else ["dirtyhole"]) + (["ghosthole"] if form in ("py", "xobj-other") and xt.is_dyn(t) else [])
 
         for t, vmode, v, form, pname in cons.enumerate_cases(shard[1], cons.VMODES, FORMS, pf):
             res.cases += 1
